@@ -138,6 +138,8 @@ def _case(draw, tier):
                filename=draw(st.sampled_from(["res", "res_{bias}"])),
                ext=draw(st.sampled_from(["", "", ".json"])),
                delete_partial=draw(st.booleans()), clock=clock)
+    if draw(st.integers(0, 3)) == 0:
+        cfg["partial_folder"] = None
     final = draw(st.sampled_from(["same", "same", "same", "extend",
                                   "shrink_then_same", "guard_fixed",
                                   "guard_unpacked", "guard_unpacked_last"]))
@@ -177,7 +179,12 @@ def _enumerate(tier):
     cases = []
     cfgs = [_enum_cfg([301], "", False),          # save after every rep
             _enum_cfg([301], ".json", True),
-            _enum_cfg([0], "", True, skips=[(0, 0), (1, 2)])]
+            _enum_cfg([0], "", True, skips=[(0, 0), (1, 2)]),
+            # nothing unpacked, partial results next to the final file
+            dict(_enum_cfg([301], "", False), unpacked=[], rep_max=4,
+                 partial_folder=None),
+            dict(_enum_cfg([301], "", True), unpacked=[], rep_max=4,
+                 partial_folder=None)]
     if tier == "thorough":
         cfgs += [_enum_cfg([301], "", True, skips=[(0, 1), (1, 0)]),
                  _enum_cfg([0, 301], ".json", False),
@@ -257,7 +264,9 @@ def _partial_paths(cfg, env):
     out = {}
     for v, p in enumerate(probe.params.get_unpacked_params_list()):
         out[v] = os.path.realpath(
-            get_partial_results_filename(base, p, "partial_results"))
+            get_partial_results_filename(
+                base, p, "partial_results" if cfg.get(
+                    "partial_folder", "default") is not None else None))
     template = cfg["filename"] + cfg["ext"]
     final = base if os.path.splitext(template)[1] else base + ".pickle"
     return out, final
